@@ -15,8 +15,9 @@ using namespace sim;
 
 namespace {
 
-static const char *kUsers[] = { "alice", "bob", "mallory", "ghost" };   // "ghost" is not known to the password checker
-static const char *kPasswords[] = { "alice-secret", "bob-secret", "mallory-secret", "" };
+static const char *kUsers[] = { "alice", "bob", "mallory", "ghost", "Alice" };   // "ghost" is not known to the password checker; "Alice" is an account of its own (the checker tells names apart by case)
+static const int kKnownUsers[] = { 0, 1, 2, 4 };
+static const char *kPasswords[] = { "alice-secret", "bob-secret", "mallory-secret", "", "capital-secret" };
 
 struct PendingReply {
     QPointer<QXmppPasswordReply> reply;
@@ -39,7 +40,7 @@ public:
     {
         auto *reply = new QXmppPasswordReply;
         bool ok = false;
-        for (int i = 0; i < 3; ++i) {
+        for (int i : kKnownUsers) {
             if (request.username() == QLatin1String(kUsers[i]) && request.password() == QLatin1String(kPasswords[i])) {
                 ok = true;
             }
@@ -54,7 +55,7 @@ public:
     {
         auto *reply = new QXmppPasswordReply;
         bool known = false;
-        for (int i = 0; i < 3; ++i) {
+        for (int i : kKnownUsers) {
             if (request.username() == QLatin1String(kUsers[i])) {
                 known = true;
                 reply->setDigest(simcrypto::hash("MD5", (request.username() + QLatin1Char(':') + request.domain() + QLatin1Char(':') + QLatin1String(kPasswords[i])).toUtf8()));
@@ -77,7 +78,7 @@ public:
     std::function<void(const QString &user, const QString &presentedPassword, bool known, const QString &secret)> onLookup;
     QXmppPasswordReply::Error getPassword(const QXmppPasswordRequest &request, QString &password) override
     {
-        for (int i = 0; i < 3; ++i) {
+        for (int i : kKnownUsers) {
             if (request.username() == QLatin1String(kUsers[i])) {
                 password = QString::fromLatin1(kPasswords[i]);
                 if (onLookup) {
@@ -165,7 +166,7 @@ public:
             // a complete DIGEST-MD5 login attempt carried through step by step (known user with the right / a wrong password,
             // or an account the checker does not know, with the empty password), then bind and a stanza to the victim
             const qint64 c = r.uniform(3);
-            const qint64 u = r.weighted({ 25, 25, 25, 25 });
+            const qint64 u = r.weighted({ 22, 22, 22, 22, 12 });
             const qint64 kind = r.weighted({ 40, 22, 0, 14, 0, 12, 6, 6 });
             auto add = [&](const QString &k, QVector<qint64> a) { p.ops.append(mkop(k, a, {}, (quint32)r.next())); };
             add(QStringLiteral("open"), { c, 0 });
@@ -179,7 +180,7 @@ public:
             // the last step of the exchange is normally an empty response; a client may put anything there, e.g. a full
             // response naming somebody else
             if (r.chance(0.3)) {
-                add(QStringLiteral("response"), { c, (qint64)r.weighted({ 40, 40, 0, 20 }), (qint64)((u + 1 + r.uniform(3)) % 4) });
+                add(QStringLiteral("response"), { c, (qint64)r.weighted({ 40, 40, 0, 20 }), (qint64)((u + 1 + r.uniform(4)) % 5) });
             } else {
                 add(QStringLiteral("response"), { c, 2, u });
             }
@@ -200,10 +201,10 @@ public:
                 break;
             case 1:
                 // mechanism (0 PLAIN, 1 DIGEST-MD5, 2 ANONYMOUS, 3 unknown), user, credential kind (0 right, 1 wrong, 2 malformed), sasl version
-                p.ops.append(mkop(QStringLiteral("auth"), { c, r.weighted({ 60, 25, 8, 7 }), (qint64)r.weighted({ 30, 30, 30, 10 }), r.weighted({ 45, 40, 15 }), (qint64)r.chance(0.3) }, {}, salt));
+                p.ops.append(mkop(QStringLiteral("auth"), { c, r.weighted({ 60, 25, 8, 7 }), (qint64)r.weighted({ 27, 27, 27, 9, 10 }), r.weighted({ 45, 40, 15 }), (qint64)r.chance(0.3) }, {}, salt));
                 break;
             case 2:
-                p.ops.append(mkop(QStringLiteral("response"), { c, r.weighted({ 36, 24, 11, 10, 9, 4, 3, 3 }), (qint64)r.weighted({ 30, 30, 30, 10 }) }, {}, salt));
+                p.ops.append(mkop(QStringLiteral("response"), { c, r.weighted({ 36, 24, 11, 10, 9, 4, 3, 3 }), (qint64)r.weighted({ 27, 27, 27, 9, 10 }) }, {}, salt));
                 break;
             case 3:
                 p.ops.append(mkop(QStringLiteral("abort"), { c }, {}, salt));
@@ -571,7 +572,7 @@ public:
                     if (c.opened) {
                         static const char *mechs[] = { "PLAIN", "DIGEST-MD5", "ANONYMOUS", "X-UNKNOWN" };
                         const QString mech = QString::fromLatin1(mechs[op.arg(1) % 4]);
-                        const int u = (int)(op.arg(2) % 4);
+                        const int u = (int)(op.arg(2) % 5);
                         c.exchange++;
                         exchangeOf[ci] = c.exchange;
                         c.exchangeMech = mech;
@@ -600,7 +601,7 @@ public:
                         // kind: 0 DIGEST-MD5 response with the right password, 1 with a wrong one, 2 empty response,
                         // 3 a replay: a response that was valid for ANOTHER challenge (right password, foreign nonce) - what somebody
                         // who recorded a login, but does not know the password, can send
-                        const int u = (int)(op.arg(2) % 4);
+                        const int u = (int)(op.arg(2) % 5);
                         QByteArray data;
                         if (op.arg(1) == 4) {
                             // a PLAIN-shaped payload (authzid NUL authcid NUL password) inside a <response/>: legal bytes, meaningless
